@@ -13,6 +13,26 @@ COMMON_NOTE = ('Trusted: Coq 8.16.1 kernel (full .vo builds, vm_compute for fini
                'harness and oracles. Axioms: see Print Assumptions output copied into the evidence file.')
 
 CLAIMED = {
+    'C20': dict(
+        text='Theorems C20_all_schedules_safe / C20_finished_threads_printed (Proofs/ThreadProofs.v: for ANY number of '
+             'threads and EVERY interleaving of the steps of the promotion of a lazily registered printer - get, test, '
+             'registry write, pop-with-default, dispatch; one atomic step per source line touching the shared tables - '
+             'no thread raises and every outcome is the sequential one; invariant "the printer is in the deferred table '
+             'or in the registry" + per-thread program-point assertions stable under the other threads, induction over '
+             'the schedule; no bound on threads or length), C20_program_shape (the step function is the program a '
+             'translator re-derives from is_registered / register_pretty on every run), C20_old_code_races (the code '
+             'before the fix: commit had a KeyError and a repr-fallback schedule). Tie: a deterministic line scheduler '
+             'replays bounded-preemption schedules (2 threads exhaustive up to 2 preemptions, 3 threads sampled) on the '
+             'real code, for the class and for subclasses; every thread must return the sequential text; the recorded '
+             'line order is projected on the model steps and the extracted model is run on the same schedule.',
+        category='proof',
+        design='5.8 C20', technique='Coq proof (interleaving invariant over all schedules and thread counts) + deterministic-scheduler replay of schedules on the implementation',
+        note=COMMON_NOTE + ' PARTIAL with respect to the runtime: atomicity is assumed at the granularity of source '
+             'lines for dict.get / dict.pop / registry write (CPython with the GIL executes each of these dict '
+             'operations atomically); preemption inside a line, free-threaded builds, functools.singledispatch\'s own '
+             'dispatch cache and everything below the dispatch (the printers build fresh documents per call; lazily '
+             'normalised cells are private to one layout call: C19_shared_constants_immutable) are not in the model. '
+             'The colour renderer\'s global palette is outside the property.'),
     'C19': dict(
         text='Theorems C19_prints_leave_no_trace (Proofs/StateIndep.v over the dispatch refinement: for every class '
              'lattice and any two histories with the same registrations - prints, is_registered queries and promotions '
